@@ -76,6 +76,13 @@ func TestC09(t *testing.T) {
 		if len(r.Leaked) > 0 {
 			res.Violatef("goroutine left behind after WaitStatus returned: "+r.Leaked[0], in, "%v; log: %s", r.Leaked, shortLog(r.Log))
 		}
+		for _, e := range r.Log {
+			// the same server started again: a callback of the new run, answered after late replies to
+			// the callbacks of the previous run, returns its own reply
+			if strings.HasPrefix(e, "restart-cb ") && !strings.HasSuffix(e, ` ok:"fresh"`) {
+				res.Violatef("a callback of the restarted server was not completed by its own reply (a late reply to a callback of the previous run was taken for it)", in, "%s; log: %s", e, shortLog(r.Log))
+			}
+		}
 		var trace, obs []string
 		idOf := map[string]string{} // callback tag -> id
 		tagOf := map[string]string{}
@@ -288,7 +295,7 @@ func TestC09(t *testing.T) {
 		runOne(&sr.Scenario, sr.picker())
 	} else {
 		for i := 0; i < pick(250, 2500); i++ {
-			sc := &srvScenario{Concurrency: 2 + rng.Intn(2), AllowPush: rng.Intn(6) != 0}
+			sc := &srvScenario{Concurrency: 2 + rng.Intn(2), AllowPush: rng.Intn(6) != 0, RestartCB: rng.Intn(3) == 0}
 			var ops []envOp
 			ncb := 1 + rng.Intn(3)
 			for k := 1; k <= ncb; k++ {
@@ -341,6 +348,9 @@ func TestC09(t *testing.T) {
 			{Concurrency: 2, AllowPush: true, Ops: []envOp{{Kind: "callback", Arg: "k1"}, {Kind: "cbcancel", Arg: "k1"}, {Kind: "send", Arg: reqCall(1, "Hc1", "ok")}, {Kind: "reply", Arg: `{"jsonrpc":"2.0","id":1,"result":"late"}`}}},
 			{Concurrency: 2, AllowPush: true, Ops: []envOp{{Kind: "callback", Arg: "k1"}, {Kind: "cbreply", Arg: "k1"}, {Kind: "send", Arg: reqCall(1, "Hc1", "ok")}, {Kind: "cbreply", Arg: "k1"}}},
 			{Concurrency: 2, AllowPush: true, Ops: []envOp{{Kind: "callback", Arg: "k1"}, {Kind: "stop"}}},
+			// the server is started again: callback ids of the new run must not be answerable by late replies to the old run's
+			{Concurrency: 2, AllowPush: true, RestartCB: true, Ops: []envOp{{Kind: "callback", Arg: "k1"}, {Kind: "stop"}}},
+			{Concurrency: 2, AllowPush: true, RestartCB: true, Ops: []envOp{{Kind: "callback", Arg: "k1"}, {Kind: "cbreply", Arg: "k1"}, {Kind: "callback", Arg: "k3"}, {Kind: "stop"}}},
 			// the transport fails to send the callback request: Callback returns that error, and the server lives on
 			{Concurrency: 2, AllowPush: true, SendFailAt: 1, Ops: []envOp{{Kind: "callback", Arg: "k1"}, {Kind: "callback", Arg: "k3"}, {Kind: "cbreply", Arg: "k3"}}},
 			{Concurrency: 2, AllowPush: true, SendFailAt: 2, Ops: []envOp{{Kind: "callback", Arg: "k1"}, {Kind: "send", Arg: reqCall(100, "c100", "cb:k3")}, {Kind: "cbreply", Arg: "k1"}, {Kind: "stop"}}},
